@@ -145,8 +145,9 @@ fn handle(v: &Value) -> Value {
         "chars" => {
             let rows: Vec<Value> = v.get("cps").and_then(Value::as_array).expect("cps").iter().map(|cp| {
                 let c = char::from_u32(cp.as_u64().unwrap() as u32).expect("char");
+                let dbg = format!("{:?}", c.to_string());
                 json!([cp, c.is_uppercase(), c.is_alphanumeric(), c.is_numeric(),
-                       c.to_string().to_uppercase(), c.to_string().to_lowercase()])
+                       c.to_string().to_uppercase(), c.to_string().to_lowercase(), dbg[1..dbg.len() - 1].to_owned()])
             }).collect();
             json!({ "ok": rows })
         }
